@@ -278,20 +278,8 @@ impl BaseBindingsGenerator for ZodBindingsGenerator {
 
         // Also collect types used in events
         let events = analyzer.get_discovered_events();
-        for event in events {
-            let mut event_types = std::collections::HashSet::new();
-            TypeCollector::collect_referenced_types_from_structure(
-                &event.payload_type_structure,
-                &mut event_types,
-            );
-
-            // Add event payload types to used_structs
-            for type_name in event_types {
-                if let Some(struct_info) = discovered_structs.get(&type_name) {
-                    used_structs.insert(type_name.clone(), struct_info.clone());
-                }
-            }
-        }
+        self.collector
+            .add_event_types(events, discovered_structs, &mut used_structs);
 
         // Create file writer
         let mut file_writer = FileWriter::new(output_path)?;
